@@ -321,6 +321,11 @@ class MonoFlatLine(Mono):
     def grid(self, tier, rng):
         for xs in series_grid(5, alphabet=(0, H / 2, 1, None)):
             yield {"n": len(xs), "x": list(xs), "t": [1000 + 60 * i for i in range(len(xs))], "D": 60, "sta": 180, "stb": 60, "fta": 240, "ftb": 120, "tola": H / 2, "tolb": H}
+        # durations of a day and more on hourly data with a stuck episode of a few hours: the looser (longer) duration
+        # must not flag what the stricter (shorter) one leaves alone
+        xs = [float(i % 7) for i in range(30)] + [5.0] * 5 + [float(i % 5) for i in range(5)]
+        for fta, ftb in ((90000, 79200), (86400, 43200), (180000, 90000)):
+            yield {"n": len(xs), "x": list(xs), "t": [1000 + 3600 * i for i in range(len(xs))], "D": 3600, "sta": fta, "stb": ftb, "fta": fta, "ftb": ftb, "tola": H, "tolb": H, "keep": 1}
 
 
 class MonoAttenuated(Mono):
